@@ -426,6 +426,10 @@ pub fn run_c03(tier: &str, seed: u64) -> campaign::CampaignResult {
                 let o = run_factset(&pc.program, &built.exe, &fs, &plans);
                 if o.infra.is_some() {
                     pp.infra += 1;
+                    // closes that keep running into the watchdog: give the program up (inconclusive)
+                    if pp.infra >= 4 {
+                        break;
+                    }
                 }
                 let fp = util::hash64(&[pc.source.as_bytes(), serde_json::to_string(&fs).unwrap().as_bytes()]);
                 pp.outcomes.push((o.bounded, o.nontrivial, o.derived, fp));
